@@ -210,6 +210,6 @@ fn decoy_invocation(out: &std::path::Path) {
 fn main() {
     let out = PathBuf::from(std::env::var_os("VBP_OUT").expect("VBP_OUT"));
     let script: Value = serde_json::from_str(&std::fs::read_to_string(std::env::var_os("VBP_SCRIPT").expect("VBP_SCRIPT")).unwrap()).unwrap();
-    decoy_invocation(&out);
+    if std::env::var_os("VBP_NO_DECOY").is_none() { decoy_invocation(&out); }
     libcnb::libcnb_runtime(&Vbp { script, out });
 }
